@@ -45,6 +45,8 @@ pub enum Place {
     RequestLine,
     HeaderName(usize),
     HeaderValue(usize),
+    /// directly behind the version token of the request line
+    RequestLineEnd,
 }
 
 /// One deliberate syntax violation (C10 / C16).
@@ -56,8 +58,14 @@ pub enum Malform {
     VersionToken(String),
     /// a header line without a colon inserted before header `at`
     HeaderNoColon { at: usize, text: String },
-    /// a byte >= 0x80 inserted
-    NonAscii { place: Place, byte: u8 },
+    /// a byte >= 0x80 inserted, followed by `tail` (continuation bytes: together they may form a
+    /// well-formed multi-byte UTF-8 sequence)
+    NonAscii {
+        place: Place,
+        byte: u8,
+        #[serde(default)]
+        tail: Vec<u8>,
+    },
     /// an `Expect` header with an unsupported value appended
     Expect(String),
     /// whitespace before the name of header `at` (at = 0: first header line; at > 0: obs-fold)
@@ -234,13 +242,17 @@ fn render_header(out: &mut Out, h: &Hdr, idx: usize, mal: &Option<Malform>) {
         }
         Some(Malform::WsBeforeColon { at, ws }) if *at == idx => before_colon = ws.clone().into_bytes(),
         Some(Malform::BadContentLength { at, value: v }) if *at == idx => value = v.clone().into_bytes(),
-        Some(Malform::NonAscii { place: Place::HeaderName(at), byte }) if *at == idx => {
+        Some(Malform::NonAscii { place: Place::HeaderName(at), byte, tail }) if *at == idx => {
             let cut = 1.min(name.len());
-            name.insert(cut, *byte);
+            for (k, b) in std::iter::once(byte).chain(tail.iter()).enumerate() {
+                name.insert(cut + k, *b);
+            }
         }
-        Some(Malform::NonAscii { place: Place::HeaderValue(at), byte }) if *at == idx => {
+        Some(Malform::NonAscii { place: Place::HeaderValue(at), byte, tail }) if *at == idx => {
             let cut = value.len() / 2;
-            value.insert(cut, *byte);
+            for (k, b) in std::iter::once(byte).chain(tail.iter()).enumerate() {
+                value.insert(cut + k, *b);
+            }
         }
         _ => {}
     }
@@ -310,10 +322,16 @@ pub fn render(conv: &Conversation) -> Rendered {
                 line.extend_from_slice(version.as_bytes());
             }
         }
-        if let Some(Malform::NonAscii { place: Place::RequestLine, byte }) = &rq.mal {
+        if let Some(Malform::NonAscii { place: Place::RequestLine, byte, tail }) = &rq.mal {
             // inside the path part, after the id marker, so the nonce offset stays valid
             let pos = line.len().saturating_sub(version.len() + 1);
-            line.insert(pos, *byte);
+            for (k, b) in std::iter::once(byte).chain(tail.iter()).enumerate() {
+                line.insert(pos + k, *b);
+            }
+        }
+        if let Some(Malform::NonAscii { place: Place::RequestLineEnd, byte, tail }) = &rq.mal {
+            line.push(*byte);
+            line.extend_from_slice(tail);
         }
         out.put(Region::RequestLine, &line);
         out.put(Region::Crlf, b"\r\n");
